@@ -434,6 +434,10 @@ def build_ephem(spec, pre=None):
             attach_cov(sv, spec["covs"][str(k)])
         pts.append(sv)
     pts = [pts[k] for k in spec.get("order_in", range(len(pts)))]
+    if pre in ("interp", "interp-then-settings") and any(st_ < 5 for st_ in spec["steps_us"][1:]):
+        # points closer than the resolution of the float day count the interpolator works with (0.6 us) are
+        # legitimately refused by it ("xs is not monotonically increasing"): no interpolator is built for such tables
+        pre = None
     if pre == "interp-then-settings":
         # built with other settings, interpolator constructed (it takes the settings over), settings then changed
         eph = Ephem(pts, method="lagrange" if spec["method"] == "linear" else "linear", order=spec["order"] % 10 + 1)
